@@ -13,6 +13,9 @@ enum Pet { Dog(Dog), Cat(Cat) }
 #[derive(Interface, Clone)]
 #[graphql(field(name = "name", ty = "&String"))]
 enum Animal { Dog(Dog), Cat(Cat) }
+#[derive(SimpleObject, Clone)]
+struct Owner { name: String, pet: Dog, pets: Vec<Dog> }
+fn owner(n: &str) -> Owner { Owner { name: n.into(), pet: dog(), pets: vec![dog(), Dog { name: "fido".into(), bark: 1 }] } }
 fn dog() -> Dog { Dog { name: "rex".into(), bark: 3 } }
 fn cat() -> Cat { Cat { name: "tom".into(), meow: 9 } }
 struct Query;
@@ -23,6 +26,8 @@ impl Query {
     async fn pet2(&self) -> Pet { Pet::Cat(cat()) }
     async fn animal(&self) -> Animal { Animal::Cat(cat()) }
     async fn pets(&self) -> Vec<Pet> { vec![Pet::Dog(dog()), Pet::Cat(cat())] }
+    async fn owners(&self) -> Vec<Owner> { vec![owner("ann"), owner("bob")] }
+    async fn owner(&self) -> Owner { owner("ann") }
     async fn num(&self) -> i32 { 7 }
     async fn fl(&self, nan: bool) -> f64 { if nan { f64::NAN } else { 1.5 } }
     async fn opt(&self) -> Option<i32> { None }
@@ -57,6 +62,17 @@ pub fn inputs(_seed: u64, open: &[String]) -> impl Iterator<Item = Value> {
         json!({"query": "query($s: Boolean!) { num @include(if: $s) opt }", "variables": {"s": false}, "data": "{\"opt\":null}"}),
         json!({"query": "{ ... @include(if: false) { num } ... @skip(if: false) { opt } }", "data": "{\"opt\":null}"}),
         json!({"query": "{ fl(nan: false) }", "data": "{\"fl\":1.5}"}),
+        // repeated response keys merge recursively, also through lists (MergeSelectionSets)
+        json!({"query": "{ owners { pet { name } } owners { pet { bark } } }", "data": "{\"owners\":[{\"pet\":{\"name\":\"rex\",\"bark\":3}},{\"pet\":{\"name\":\"rex\",\"bark\":3}}]}"}),
+        json!({"query": "{ owners { name pets { name } } owners { pets { bark } name } }", "data": "{\"owners\":[{\"name\":\"ann\",\"pets\":[{\"name\":\"rex\",\"bark\":3},{\"name\":\"fido\",\"bark\":1}]},{\"name\":\"bob\",\"pets\":[{\"name\":\"rex\",\"bark\":3},{\"name\":\"fido\",\"bark\":1}]}]}"}),
+        json!({"query": "{ owner { pet { name } } ... on Query { owner { pet { bark } name } } }", "data": "{\"owner\":{\"pet\":{\"name\":\"rex\",\"bark\":3},\"name\":\"ann\"}}"}),
+        json!({"query": "{ owner { pets { name } } ...F } fragment F on Query { owner { pets { bark } } }", "data": "{\"owner\":{\"pets\":[{\"name\":\"rex\",\"bark\":3},{\"name\":\"fido\",\"bark\":1}]}}"}),
+        // both directives on one selection: BOTH must let it through
+        json!({"query": "{ num @skip(if: false) @include(if: false) opt }", "data": "{\"opt\":null}"}),
+        json!({"query": "{ num @include(if: true) @skip(if: true) opt }", "data": "{\"opt\":null}"}),
+        json!({"query": "{ num @include(if: true) @skip(if: false) opt }", "data": "{\"num\":7,\"opt\":null}"}),
+        json!({"query": "query($a: Boolean!, $b: Boolean!) { ... @skip(if: $a) @include(if: $b) { num } dog @include(if: $b) @skip(if: $a) { name } opt }", "variables": {"a": false, "b": false}, "data": "{\"opt\":null}"}),
+        json!({"query": "query($a: Boolean!, $b: Boolean!) { ...F @skip(if: $a) @include(if: $b) opt } fragment F on Query { num }", "variables": {"a": true, "b": true}, "data": "{\"opt\":null}"}),
     ];
     if !has("C01-union-type-condition-on-concrete-object") {
         v.push(json!({"query": "{ dog { ... on Pet { ... on Dog { bark } } name } }", "data": "{\"dog\":{\"bark\":3,\"name\":\"rex\"}}"}));
